@@ -442,7 +442,7 @@ func (p *plugin) UpdateContainers(ctx context.Context, req *UpdateContainersRequ
 
 // configure the plugin and subscribe it for the events it requested.
 func (p *plugin) configure(ctx context.Context, name, version, config string) (err error) {
-	ctx, cancel := context.WithTimeout(ctx, getPluginRequestTimeout())
+	ctx, cancel := p.requestContext(ctx)
 	defer cancel()
 
 	req := &ConfigureRequest{
@@ -475,7 +475,7 @@ func (p *plugin) configure(ctx context.Context, name, version, config string) (e
 func (p *plugin) synchronize(ctx context.Context, pods []*PodSandbox, containers []*Container) ([]*ContainerUpdate, error) {
 	log.Infof(ctx, "synchronizing plugin %s", p.name())
 
-	ctx, cancel := context.WithTimeout(ctx, getPluginRequestTimeout())
+	ctx, cancel := p.requestContext(ctx)
 	defer cancel()
 
 	var (
@@ -597,7 +597,7 @@ func (p *plugin) createContainer(ctx context.Context, req *CreateContainerReques
 		return nil, nil
 	}
 
-	ctx, cancel := context.WithTimeout(ctx, getPluginRequestTimeout())
+	ctx, cancel := p.requestContext(ctx)
 	defer cancel()
 
 	rpl, err := p.impl.CreateContainer(ctx, req)
@@ -620,7 +620,7 @@ func (p *plugin) updateContainer(ctx context.Context, req *UpdateContainerReques
 		return nil, nil
 	}
 
-	ctx, cancel := context.WithTimeout(ctx, getPluginRequestTimeout())
+	ctx, cancel := p.requestContext(ctx)
 	defer cancel()
 
 	rpl, err := p.impl.UpdateContainer(ctx, req)
@@ -643,7 +643,7 @@ func (p *plugin) stopContainer(ctx context.Context, req *StopContainerRequest) (
 		return nil, nil
 	}
 
-	ctx, cancel := context.WithTimeout(ctx, getPluginRequestTimeout())
+	ctx, cancel := p.requestContext(ctx)
 	defer cancel()
 
 	rpl, err = p.impl.StopContainer(ctx, req)
@@ -665,7 +665,7 @@ func (p *plugin) updatePodSandbox(ctx context.Context, req *UpdatePodSandboxRequ
 		return nil, nil
 	}
 
-	ctx, cancel := context.WithTimeout(ctx, getPluginRequestTimeout())
+	ctx, cancel := p.requestContext(ctx)
 	defer cancel()
 
 	if _, err := p.impl.UpdatePodSandbox(ctx, req); err != nil {
@@ -687,7 +687,7 @@ func (p *plugin) StateChange(ctx context.Context, evt *StateChangeEvent) (err er
 		return nil
 	}
 
-	ctx, cancel := context.WithTimeout(ctx, getPluginRequestTimeout())
+	ctx, cancel := p.requestContext(ctx)
 	defer cancel()
 
 	if err = p.impl.StateChange(ctx, evt); err != nil {
@@ -701,6 +701,23 @@ func (p *plugin) StateChange(ctx context.Context, evt *StateChangeEvent) (err er
 	}
 
 	return nil
+}
+
+// requestContext returns a context for a single request to the plugin, bounded by
+// the plugin request timeout. ttrpc does not bound the sending of a request, only
+// the wait for the response. A plugin which stopped reading its socket could block
+// us for good. Therefore, once the context expires we also close the plugin.
+func (p *plugin) requestContext(ctx context.Context) (context.Context, context.CancelFunc) {
+	ctx, cancel := context.WithTimeout(ctx, getPluginRequestTimeout())
+	stop := context.AfterFunc(ctx, func() {
+		if errors.Is(ctx.Err(), context.DeadlineExceeded) {
+			p.close()
+		}
+	})
+	return ctx, func() {
+		stop()
+		cancel()
+	}
 }
 
 // isFatalError returns true if the error is fatal and the plugin connection should be closed.
